@@ -271,11 +271,13 @@ func (s *serverSocket) onAck(header *parser.PacketHeader, decode parser.Decode) 
 }
 
 func (s *serverSocket) Join(room ...Room) {
+	// Hold the lock while joining: onClose swaps s.join for a no-op and then
+	// leaves all rooms, and a join that was read before the swap must not be
+	// applied after it.
 	s.joinMu.Lock()
-	join := s.join
-	s.joinMu.Unlock()
+	defer s.joinMu.Unlock()
 	vhook.Yield("ssocket.join.window", s)
-	join(room...)
+	s.join(room...)
 }
 
 func (s *serverSocket) Leave(room Room) {
